@@ -1,6 +1,7 @@
 """C10 — Gaussian mixture: precisions refreshed before a run is accepted; numerical failures propagate; log-sum-exp shifted."""
+from . import layout
 from .core import RuleResult
-from .facts import fn_key, fn_loc, fn_file, walk, strip, peel_refs, Render
+from .facts import pat_bindings, fn_key, fn_loc, fn_file, walk, strip, peel_refs, Render
 from .sym import Tracer, Term, Cmp, k, as_term, walk_terms
 from .taint import parent_map
 from . import lse
@@ -268,5 +269,168 @@ def rule_posterior(ctx):
     return res.finish(6)
 
 
+rule_memorder = layout.make_rule("R-C10-memorder", "raw memory-order buffers (as_slice_memory_order, into_raw_vec, as_ptr) of observations and responsibilities are used by position only behind an is_standard_layout() test", lambda f: f["d"]["krate"] == "linfa_clustering" and "gaussian_mixture" in fn_file(f), "linfa-clustering gaussian_mixture")
+
+def rule_incumbent(ctx):
+    """best-of-n selection (restarts, initialisation candidates): the incumbent cost is updated together with the state it belongs to"""
+    from . import extrema
+    res = RuleResult("R-C10-incumbent", "a best-of-n loop that saves state when a candidate beats the incumbent also updates the incumbent (Gaussian mixture)")
+    F = ctx.facts()
+    fns = [f for f in F.all_fns() if f["d"]["krate"] == "linfa_clustering" and "gaussian_mixture" in fn_file(f)]
+    n = 0
+    for fn in fns:
+        for s_ in extrema.incumbents(fn):
+            n += 1
+            key = fn_key(fn)
+            res.instance("%s : incumbent `%s` (%s) guards the saving of %s" % (key, s_["best_name"], s_["evidence"], s_["saved"]))
+            if s_["updated"]:
+                res.ok()
+            else:
+                res.violate("%s : incumbent-not-updated:%s" % (key, s_["best_name"]), "`%s` is compared with every candidate and %s is saved when the candidate wins, but `%s` itself is never assigned in the loop: every candidate is compared with the first one, so a later, worse candidate replaces a better one saved before it" % (s_["best_name"], ", ".join(s_["saved"]), s_["best_name"]), fn_loc(fn, s_["node"]["ln"]))
+    res.instance("%d functions of Gaussian mixture scanned, %d best-of-n tests" % (len(fns), n))
+    if fns:
+        res.ok()
+    else:
+        res.missing_anchor("functions of Gaussian mixture")
+    return res.finish(1)
+
+
+def _tparity(e, is_base):
+    """number of transpositions (mod 2) between a base matrix and expression e, or None if e is not a (transposed) view of it"""
+    par = 0
+    e = peel_refs(e)
+    while isinstance(e, dict):
+        if is_base(e):
+            return par
+        if e.get("k") == "MethodCall" and not e["args"]:
+            if e["name"] in ("t", "reversed_axes"):
+                par ^= 1
+            elif e["name"] not in ("view", "to_owned", "reborrow", "into_owned", "clone", "view_mut", "into_dimensionality", "unwrap", "as_standard_layout"):
+                return None
+            e = peel_refs(e["recv"])
+            continue
+        return None
+    return None
+
+
+def rule_orient(ctx):
+    """precisions_chol stores, per component, a triangular factor P of the precision matrix; the one place that writes it
+    and the two places that read it must agree on which of the two factors it is.  With sol = L^-1 (triangular solve
+    of the lower Cholesky factor of the covariance against the identity): precision = sol^T . sol.  If the writer
+    stores P = sol^T, the precision is P . P^T and the Mahalanobis term is |(x - mu) . P|^2; if it stores P = sol, they
+    are P^T . P and |(x - mu) . P^T|^2.  Transposition parities are read from the three sites and compared."""
+    res = RuleResult("R-C10-orient", "the factor stored in precisions_chol (writer) and its uses in compute_precisions_full and estimate_log_gaussian_prob (readers) agree on its orientation")
+    F = ctx.facts()
+    fns = {f["d"]["name"]: f for f in F.all_fns() if f["d"]["krate"] == "linfa_clustering" and "gaussian_mixture" in fn_file(f)}
+    w = fns.get("compute_precisions_cholesky_full")
+    r1 = fns.get("compute_precisions_full")
+    r2 = fns.get("estimate_log_gaussian_prob")
+    for nm, f in (("compute_precisions_cholesky_full", w), ("compute_precisions_full", r1), ("estimate_log_gaussian_prob", r2)):
+        if f is None:
+            res.missing_anchor("GaussianMixtureModel::%s" % nm)
+    if w is None or r1 is None or r2 is None:
+        return res.finish(3)
+    # ---- writer: <result>.slice_mut(..).assign(&E), E a (transposed) view of the local holding the triangular solve
+    sol_locals = set()
+    lower = None
+    for n in walk(w["body"]):
+        if n.get("k") == "LetStmt" and n.get("init") is not None and n["pat"].get("k") == "Bind":
+            calls = [x for x in walk(n["init"]) if x.get("k") == "MethodCall" and x["name"] in ("solve_triangular_into", "solve_triangular", "solve_triangular_inplace")]
+            if calls:
+                sol_locals.add(n["pat"]["local"])
+                r_ = Render(w["crate"])
+                lower = "Lower" in r_.e(calls[0]["args"][-1]) if calls[0]["args"] else None
+                chol = [x for x in walk(n["init"]) if x.get("k") == "MethodCall" and x["name"] in ("cholesky", "cholesky_into")]
+                if not chol:
+                    lower = None
+    wpar = None
+    wln = w["line"]
+    for n in walk(w["body"]):
+        if n.get("k") == "MethodCall" and n["name"] == "assign" and len(n["args"]) == 1:
+            pr = _tparity(n["args"][0], lambda e: e.get("k") == "Path" and e.get("local") in sol_locals)
+            if pr is not None:
+                wpar = pr
+                wln = n["ln"]
+    res.instance("%s : stored factor = sol%s (sol = triangular solve of the lower Cholesky factor against the identity)" % (fn_key(w), "^T" if wpar else ""))
+    if wpar is None or not lower:
+        res.undecided("%s : writer-form" % fn_key(w), "the assignment of the triangular solve into precisions_chol was not recognised", fn_loc(w, wln))
+        return res.finish(3)
+    res.ok()
+    # ---- reader 1: precisions[k] = A . B with A, B (transposed) views of the per-component factor
+    def comp_locals(fn):
+        """locals bound to one component's factor: items of <param or self.precisions_chol>.outer_iter()"""
+        out = set()
+        for n in walk(fn["body"]):
+            if n.get("k") == "Match" and n.get("src") == "ForLoopDesugar" and any(x.get("k") == "MethodCall" and x["name"] in ("outer_iter", "axis_iter") for x in walk(n["scrut"])):
+                from .inplace import _pattern_for
+                src = [x for x in walk(n["scrut"]) if x.get("k") == "MethodCall" and x["name"] in ("outer_iter", "axis_iter")][0]
+                for x in walk(n):
+                    if x.get("k") == "Match" and x is not n and x.get("src") == "ForLoopDesugar":
+                        for arm in x["arms"]:
+                            pp = arm["pat"]
+                            sub = pp["pats"][0] if pp.get("k") == "TupleStruct" and pp.get("pats") else (pp["fields"][0]["pat"] if pp.get("k") == "Struct" and pp.get("fields") else None)
+                            if sub is None:
+                                continue
+                            tgt = _pattern_for(n["scrut"], sub, src)
+                            if tgt is not None:
+                                for b in pat_bindings(tgt):
+                                    out.add(b["local"])
+                        break
+            if n.get("k") == "MethodCall" and n["name"] in ("for_each", "par_for_each") and n["args"] and strip(n["args"][-1]).get("k") == "Closure":
+                # Zip::indexed(a).and(self.precisions_chol.outer_iter()).for_each(|k, mu, prec_chol| ..)
+                prods = []
+                e = strip(n["recv"])
+                while e.get("k") == "MethodCall" and e["name"] in ("and", "and_broadcast"):
+                    prods.insert(0, e["args"][0])
+                    e = strip(e["recv"])
+                if e.get("k") == "Call":
+                    d = fn["crate"].dfn(strip(e["f"]).get("def")) if strip(e["f"]).get("k") == "Path" else None
+                    head = [None, e["args"][0]] if d and d["name"] == "indexed" else [e["args"][0]]
+                    prods = head + prods
+                clo = strip(n["args"][-1])
+                for i_, p_ in enumerate(prods):
+                    if p_ is not None and i_ < len(clo["params"]) and any(x.get("k") == "Field" and x["name"] == "precisions_chol" for x in walk(p_)):
+                        for b in pat_bindings(clo["params"][i_]):
+                            out.add(b["local"])
+        return out
+    c1 = comp_locals(r1)
+    found1 = False
+    for n in walk(r1["body"]):
+        if n.get("k") == "MethodCall" and n["name"] == "dot" and len(n["args"]) == 1:
+            base = lambda e: e.get("k") == "Path" and e.get("local") in c1
+            pa, pb = _tparity(n["recv"], base), _tparity(n["args"][0], base)
+            if pa is None or pb is None:
+                continue
+            found1 = True
+            res.instance("%s : precision = P%s . P%s" % (fn_key(r1), "^T" if pa else "", "^T" if pb else ""))
+            # in terms of sol: A = sol^(w+pa), B = sol^(w+pb); the precision is sol^T . sol
+            if (wpar + pa) % 2 == 1 and (wpar + pb) % 2 == 0:
+                res.ok()
+            else:
+                res.violate("%s : precision-orientation" % fn_key(r1), "with the stored factor P = sol%s the product P%s . P%s is %s, not the precision sol^T . sol = (L L^T)^-1: precisions() is not the inverse of covariances()" % ("^T" if wpar else "", "^T" if pa else "", "^T" if pb else "", "sol%s . sol%s" % ("^T" if (wpar + pa) % 2 else "", "^T" if (wpar + pb) % 2 else "")), fn_loc(r1, n["ln"]))
+    if not found1:
+        res.instance("%s : product of the factor with its transpose" % fn_key(r1))
+        res.undecided("%s : reader-form" % fn_key(r1), "the product forming the precision matrix from the stored factor was not recognised", fn_loc(r1))
+    # ---- reader 2: (x - mu) . M
+    c2 = comp_locals(r2)
+    found2 = False
+    for n in walk(r2["body"]):
+        if n.get("k") == "MethodCall" and n["name"] == "dot" and len(n["args"]) == 1:
+            base = lambda e: e.get("k") == "Path" and e.get("local") in c2
+            pm = _tparity(n["args"][0], base)
+            if pm is None:
+                continue
+            found2 = True
+            res.instance("%s : Mahalanobis term |(x - mu) . P%s|^2" % (fn_key(r2), "^T" if pm else ""))
+            if (wpar + pm) % 2 == 1:
+                res.ok()
+            else:
+                res.violate("%s : mahalanobis-orientation" % fn_key(r2), "with the stored factor P = sol%s the rows (x - mu) are multiplied by sol instead of sol^T: the quadratic form is (x - mu) sol sol^T (x - mu)^T, which is not the Mahalanobis distance" % ("^T" if wpar else ""), fn_loc(r2, n["ln"]))
+    if not found2:
+        res.instance("%s : product of the centred rows with the factor" % fn_key(r2))
+        res.undecided("%s : reader-form" % fn_key(r2), "the product of the centred observations with the stored factor was not recognised", fn_loc(r2))
+    return res.finish(3)
+
+
 def rules(tier):
-    return [rule_refresh, rule_err, rule_lse, rule_posterior]
+    return [rule_refresh, rule_err, rule_lse, rule_posterior, rule_memorder, rule_incumbent, rule_orient]
